@@ -304,6 +304,101 @@ func (c *Ctx) genMesh(g meshGen) modeling.Mesh {
 	return m
 }
 
+// genHoleMesh builds a well-formed TRIANGLE mesh for the index-rewriting operations (weld, remove unreferenced,
+// remove null faces, split, filters after ToPointCloud): 1..k vertices that no triangle references, placed at the
+// front / in the middle / at the end / scattered; every position distinct after rounding to 0..3 decimals (integer
+// coordinates, non-collinear), every triangle on three distinct referenced vertices — so a weld collapses NOTHING and
+// only the compaction of the unreferenced vertices shifts indices. `mixed` additionally plants a duplicated position
+// and a degenerate triangle, so collapse and pre-existing holes occur together.
+func (c *Ctx) genHoleMesh() modeling.Mesh {
+	n := 4 + c.Rng.Intn(11)
+	k := 1 + c.Rng.Intn(3)
+	if k > n-3 {
+		k = n - 3
+	}
+	unref := map[int]bool{}
+	place := c.Rng.Intn(4)
+	switch place {
+	case 0: // front
+		c.Note("hole:front")
+		for i := 0; i < k; i++ {
+			unref[i] = true
+		}
+	case 1: // middle
+		c.Note("hole:middle")
+		st := 1 + c.Rng.Intn(n-k-1)
+		for i := 0; i < k; i++ {
+			unref[st+i] = true
+		}
+	case 2: // end
+		c.Note("hole:end")
+		for i := 0; i < k; i++ {
+			unref[n-1-i] = true
+		}
+	default: // scattered
+		c.Note("hole:scattered")
+		for len(unref) < k {
+			unref[c.Rng.Intn(n)] = true
+		}
+	}
+	var refd []int
+	for i := 0; i < n; i++ {
+		if !unref[i] {
+			refd = append(refd, i)
+		}
+	}
+	pos := make([]vector3.Float64, n)
+	for i := range pos {
+		pos[i] = vector3.New(float64(2*i), float64((i*i)%7), float64((i*5)%3))
+	}
+	nt := 1 + c.Rng.Intn(2*len(refd))
+	var idx []int
+	for t := 0; t < nt; t++ {
+		p := c.Rng.Perm(len(refd))
+		idx = append(idx, refd[p[0]], refd[p[1]], refd[p[2]])
+	}
+	mixed := c.Rng.Intn(4) == 0
+	if mixed {
+		c.Note("hole:mixed-with-collapse")
+		// a referenced vertex coincides with another one, and one triangle is degenerate
+		pos[refd[0]] = pos[refd[1]]
+		idx = append(idx, refd[2], refd[2], refd[0])
+	}
+	v3 := map[string][]vector3.Float64{modeling.PositionAttribute: pos}
+	v1 := map[string][]float64{}
+	v2 := map[string][]vector2.Float64{}
+	tag := 500
+	if c.Rng.Intn(2) == 0 {
+		d := make([]vector3.Float64, n)
+		for i := range d {
+			d[i] = vector3.New(float64(tag), float64(tag+1), float64(tag+2))
+			tag += 3
+		}
+		v3[modeling.NormalAttribute] = d
+	}
+	if c.Rng.Intn(2) == 0 {
+		d := make([]float64, n)
+		for i := range d {
+			d[i] = float64(tag)
+			tag++
+		}
+		v1[modeling.ClassAttribute] = d
+	}
+	if c.Rng.Intn(3) == 0 {
+		d := make([]vector2.Float64, n)
+		for i := range d {
+			d[i] = vector2.New(float64(tag), float64(tag+1))
+			tag += 2
+		}
+		v2[modeling.TexCoordAttribute] = d
+	}
+	m := modeling.NewTriangleMesh(idx).SetFloat3Data(v3).SetFloat2Data(v2).SetFloat1Data(v1)
+	if c.Rng.Intn(3) == 0 {
+		m = m.SetMaterials(c.genMaterials(m.PrimitiveCount()))
+	}
+	return m
+}
+
 // material ranges: mostly summing to the primitive count, with empty ranges and a material
 // that comes back later; sometimes too long, rarely too short (the split loop then runs out).
 func (c *Ctx) genMaterials(prims int) []modeling.MeshMaterial {
@@ -591,6 +686,9 @@ func (c *Ctx) applyOp(name string, m modeling.Mesh) opRun {
 		})
 	case "weld":
 		attr := c.pickV3Attr(m)
+		if m.HasFloat3Attribute(modeling.PositionAttribute) && c.Rng.Intn(2) == 0 {
+			attr = modeling.PositionAttribute
+		}
 		dec := c.Rng.Intn(4)
 		return runOp(name, fmt.Sprintf("%s %d %s", attr, dec, ms), false, func() []modeling.Mesh {
 			return one(m.WeldByFloat3Attribute(attr, dec))
@@ -696,7 +794,10 @@ func (c *Ctx) applyOp(name string, m modeling.Mesh) opRun {
 }
 
 func (c *Ctx) startMesh() modeling.Mesh {
-	switch c.Rng.Intn(10) {
+	switch c.Rng.Intn(12) {
+	case 10, 11:
+		c.Note("start:holes")
+		return c.genHoleMesh()
 	case 7, 8, 9:
 		c.Note("start:cloud")
 		return c.genMesh(meshGen{topo: []modeling.Topology{modeling.PointTopology}, needPos: c.Rng.Intn(4) != 0, maxVerts: 20, materials: true})
@@ -718,6 +819,10 @@ func (c *Ctx) startMesh() modeling.Mesh {
 
 // opsFor biases the choice towards operations the mesh's topology admits (rejections still occur)
 func (c *Ctx) opsFor(m modeling.Mesh, all []string) string {
+	if m.Topology() == modeling.TriangleTopology && c.Rng.Intn(4) == 0 {
+		// triangle meshes: the operations that rewrite indices after dropping vertices / faces
+		return []string{"weld", "weld", "removeunref", "removenull", "split", "setindices", "unweld"}[c.Rng.Intn(7)]
+	}
 	if m.Topology() == modeling.PointTopology && c.Rng.Intn(2) == 0 {
 		// point clouds: the filter / crop family is only applicable here
 		return []string{"filter", "filter", "crop"}[c.Rng.Intn(3)]
